@@ -257,6 +257,9 @@ class GetPhaseField(RenderBase):
     def bounded_inputs(self, case, tier, seed):
         import random
         rng = random.Random(seed + 23)
+        # a cell centre EXACTLY on the interface (centre on a cell centre, integer radius, no perturbation): the field must still be finite and a
+        # sharp droplet must still give exactly the indicator
+        yield dict(radius=2.0, vmin=0.0, vmax=1.0, width=1.0, modes=2, on_cell_centre=True, centre="cell", shift=1, seed=1, zero_amplitudes=True)
         for t in range(4 if tier == "quick" else 40):
             yield dict(radius=[2.3, 1.0, 3.7, 0.4][t % 4], vmin=[0.0, 0.5, -1.0, 2.0][t % 4], vmax=[1.0, 1.0, 1.0, -1.0][t % 4],
                        width=[1.0, 0.5, 2.0, 1.3][t % 4], modes=[2, 3, 4, 1][t % 4], on_cell_centre=(t % 2 == 0),
@@ -371,6 +374,8 @@ def render_check(case, inputs, roll=True):
             # non-zero amplitudes that cancel exactly (sum == 0), with a leading zero: still a perturbed shape
             amps = np.zeros(n)
             amps[-2:] = [0.25, -0.25]
+        if inputs.get("zero_amplitudes"):
+            amps = np.zeros(n)
         R = float(inputs.get("radius", 2.0))
         try:
             if cls == "SphericalDroplet":
